@@ -20,6 +20,10 @@
   * the printed text, given to the parser model of C01 (`create cfg`, for EVERY variant `cfg` of the
     parser), yields the same host sequence (`ranged_roundtrip`, `deranged_roundtrip`; domain
     `RoundDom cfg`: no limit on name lengths once D18/D23 are repaired, `RoundDom.of_repaired`)
+  * NARROWER for the expanded form (`deranged_roundtrip_any_size`): no size hypothesis at all — records of
+    any size, bracket groups of any length (F14-BIGRANGE concerns the compressed form only, where the two
+    limits are the parser's own: `roundtrip_bigrange_false`); `NoMeta` is needed by both forms
+    (`roundtrip_meta_false`) and is exactly "no `,` blank tab `[` `]` in a name, single-host names non-empty"
   * `list_push_hostlist`: the unchanged retry loop diverges iff the text needs ≥ 4095 bytes
     (`listPushHostlist_diverges_iff`, D2/F14-XLOOP); the repaired loop always ends and hands on the
     whole text (`listPushHostlist_repaired_terminates`, `_repaired_text`)
@@ -249,6 +253,29 @@ theorem deranged_roundtrip (cfg : Cfg) (h : HL) (hd : RoundDom cfg h) (hz : NoNu
       simp only [obsOf, hk] at this
       exact absurd this (by simp)
   · exact deranged_roundtrip_L cfg h.ranges.toList hd.good hd.noMeta (fun r hr => (hd.recs r hr).fits)
+
+/-- EXPANDED FORM, NARROWER DOMAIN: the expanded text names every host on its own, so neither of the
+    parser's size limits matters — the round trip holds for records of ANY size and bracket groups of any
+    length (F14-BIGRANGE concerns the compressed form only); what remains is well-formed records and
+    `NoMeta` (with D18 / D23 repaired; `NoMeta` cannot go: `roundtrip_meta_false`) -/
+theorem deranged_roundtrip_any_size (cfg : Cfg) (h18 : cfg.fixCurTok = true) (h23 : cfg.fixHostBuf = true) (h : HL)
+    (hg : GoodRecords h) (hm : PrintSpec.NoMeta h) (hz : NoNul h.ranges.toList) (n : Nat)
+    (hn : 1 ≤ n) (k : Nat) (hk : (derangedString true n h).2 = .ok k) :
+    (derangedString true n h).1.text n = some (PrintSpec.derangedText h) ∧
+    ∃ h', create cfg (PrintSpec.derangedText h) = .ok h' ∧ h'.Good ∧ h'.hosts = h.hosts := by
+  constructor
+  · obtain ⟨_, s, hs, hfit, hcut⟩ := deranged_verdict h hg hz n hn
+    by_cases hf : PrintSpec.Fits (PrintSpec.derangedText h) n
+    · rw [← (hfit hf).2]; exact hs
+    · have := (hcut hf).1
+      simp only [obsOf, hk] at this
+      exact absurd this (by simp)
+  · exact deranged_roundtrip_L cfg h.ranges.toList hg hm (fun _ _ => Or.inl ⟨h18, h23⟩)
+
+/-- non-vacuity beyond `RoundDom`: `a[1-20000]` (what `a[1-16384],a[16385-20000]` coalesces to, F14-BIGRANGE)
+    lies in the narrower domain -/
+example : GoodRecords ⟨#[HRange.mk' ['a'] 1 20000 1], 20000⟩ ∧ PrintSpec.NoMeta ⟨#[HRange.mk' ['a'] 1 20000 1], 20000⟩ ∧
+    ¬ ((20000 : Nat) - 1 < Spec.RANGE_LIMIT) := by decide
 
 /-
   FULL STATEMENT of the round trip without `NoMeta` is FALSE (F14-META): the first-level names of a
